@@ -22,11 +22,13 @@
      url_parse dbg hp ho hd p   Url::parse(p): the parser model (Model/Parser.v) without base and without
                            encoding override, on the chars() of the byte string p
      Host.host_parse idna, Host.host_display   the host MODEL (Model/Host.v, property C09), idna arbitrary
+     C09_Host.IdnaOK idna  the hypothesis of C09 on the IDNA function: outputs are ASCII outside the deny list
+                           host.rs passes, are fixed points, and dotted-decimal text is mapped to itself
    Strings are lists of UTF-8 bytes. *)
 From RU Require Import Base.Prelude Base.Utf8 Gen.Tables Model.HostT Model.UrlRecord Model.Parser Model.Origin
   Proofs.C16_Conc Proofs.C16_Origin Proofs.C16_RT Proofs.C16_Example Proofs.C16_Colons Proofs.C16_RT6
-  Proofs.C16_RT6Model.
-From RU Require Model.Host.
+  Proofs.C16_RT6Model Proofs.C16_RTParsed.
+From RU Require Model.Host Proofs.C09_Host.
 
 (* the code as it is today increments COUNTER with one atomic fetch_add (re-proved against the
    regenerated table on every run; a load/store pair makes this fail) *)
@@ -413,6 +415,57 @@ Check C16_rt_ipv6_model : forall dbg idna ho tu s a p,
                                = OOk (Tuple s (HIpv6 a) p) k).
 Print Assumptions C16_rt_ipv6_model.
 
+(* THE STRONGEST TRUE FORM of the ASCII half of C16_rt_statement for arbitrary host functions: for the origin o of
+   ANY result of Url::parse (parser model), if o is a tuple its ASCII serialization parses to a URL whose origin is
+   o - provided Display writes a domain as it is and every host that Host::parse RETURNS has a plain or bracketed
+   text which Display writes and Host::parse reads back as the same host.  That the scheme is one of the five,
+   that the port is a u16 and that the host of the origin was returned by Host::parse are PROVED for origins of
+   parse results (through the blob recursion), no longer assumed. *)
+Theorem C16_rt_parsed : forall dbg hp ho hd input u c o c',
+  (forall d, hd (HDomain d) = d) ->
+  (forall t h, hp t = Ok h ->
+     (plain_text (host_fmt hd h) \/ bracket_text (host_fmt hd h))
+     /\ hd h = host_fmt hd h /\ hp (host_fmt hd h) = Ok h) ->
+  url_parse dbg hp ho hd input = POk u -> url_origin dbg hp ho hd c u = OOk o c' -> is_tuple o = true ->
+  nlen (ascii_serialization hd o) < U32_MAX_P ->
+  exists w, url_parse dbg hp ho hd (ascii_serialization hd o) = POk w
+            /\ url_origin dbg hp ho hd c' w = OOk o c'.
+Proof.
+  intros dbg hp ho hd input u c o c' Hdom HR. exact (rt_parsed dbg hp ho hd Hdom input u c o c' HR).
+Qed.
+Check C16_rt_parsed : forall dbg hp ho hd input u c o c',
+  (forall d, hd (HDomain d) = d) ->
+  (forall t h, hp t = Ok h ->
+     (plain_text (host_fmt hd h) \/ bracket_text (host_fmt hd h))
+     /\ hd h = host_fmt hd h /\ hp (host_fmt hd h) = Ok h) ->
+  url_parse dbg hp ho hd input = POk u -> url_origin dbg hp ho hd c u = OOk o c' -> is_tuple o = true ->
+  nlen (ascii_serialization hd o) < U32_MAX_P ->
+  exists w, url_parse dbg hp ho hd (ascii_serialization hd o) = POk w
+            /\ url_origin dbg hp ho hd c' w = OOk o c'.
+Print Assumptions C16_rt_parsed.
+
+(* ... and both premises hold for the host MODEL relative to C09's hypothesis on the IDNA function (domains it
+   returns are lower-case ASCII without forbidden code points, IPv4 texts are dotted decimal, IPv6 texts bracketed;
+   Display/parse round trip = C09_display_rt).  So: parser model + host model, ANY input, ANY nesting of blob:,
+   any Host::parse_opaque - the ASCII serialization of the tuple origin of the parse result parses back to a URL
+   with that origin.  Remaining premises: IdnaOK idna (C09 / C12) and a serialization shorter than 2^32. *)
+Theorem C16_rt_parsed_model : forall dbg idna ho input u c o c',
+  C09_Host.IdnaOK idna ->
+  url_parse dbg (Host.host_parse idna) ho Host.host_display input = POk u ->
+  url_origin dbg (Host.host_parse idna) ho Host.host_display c u = OOk o c' -> is_tuple o = true ->
+  nlen (ascii_serialization Host.host_display o) < U32_MAX_P ->
+  exists w, url_parse dbg (Host.host_parse idna) ho Host.host_display (ascii_serialization Host.host_display o) = POk w
+            /\ url_origin dbg (Host.host_parse idna) ho Host.host_display c' w = OOk o c'.
+Proof. exact rt_parsed_model. Qed.
+Check C16_rt_parsed_model : forall dbg idna ho input u c o c',
+  C09_Host.IdnaOK idna ->
+  url_parse dbg (Host.host_parse idna) ho Host.host_display input = POk u ->
+  url_origin dbg (Host.host_parse idna) ho Host.host_display c u = OOk o c' -> is_tuple o = true ->
+  nlen (ascii_serialization Host.host_display o) < U32_MAX_P ->
+  exists w, url_parse dbg (Host.host_parse idna) ho Host.host_display (ascii_serialization Host.host_display o) = POk w
+            /\ url_origin dbg (Host.host_parse idna) ho Host.host_display c' w = OOk o c'.
+Print Assumptions C16_rt_parsed_model.
+
 (* non-vacuity: the whole chain executed inside Coq (real parser model, stand-in host functions that
    keep a domain as it is).  https://example.com:8443/x has the tuple origin (https, example.com, 8443),
    which serializes to https://example.com:8443, which parses to a URL with the same origin;
@@ -450,3 +503,8 @@ Example C16_premises_hold_2 :
   /\ ascii_serialization Host.host_display (Tuple s_http (HIpv6 [8193; 3512; 0; 0; 1; 0; 0; 1]) 80)
      = [104; 116; 116; 112; 58; 47; 47; 91; 50; 48; 48; 49; 58; 100; 98; 56; 58; 58; 49; 58; 48; 58; 48; 58; 49; 93].
 Proof. exact (conj colons_example ipv6_texts). Qed.
+
+(* the premise IdnaOK of C16_rt_parsed_model is satisfiable: the identity on ASCII strings without denied
+   characters (so the premises of C16_rt_parsed hold for Host.host_parse idna_clean / Host.host_display) *)
+Example C16_premises_hold_3 : C09_Host.IdnaOK idna_clean.
+Proof. exact idna_clean_ok. Qed.
